@@ -50,9 +50,14 @@ try:
         dst = os.path.join(wt, pkg, "zz_" + d)
         shutil.copyfile(os.path.join(out, d), dst)
         rc1, o1 = sh(["go", "test", "-vet=off", "-count=1"] + tags + ["./" + pkg + "/"], wt)
-        sh(["git", "stash", "-q"], wt)  # removes the source change, keeps untracked demo
+        # Remove the source change (keeping the untracked demo) and put it back
+        # afterwards.  No `git stash`: the stash is shared by all worktrees of a
+        # repository, and other worktrees are in use concurrently.
+        sh(["git", "checkout", "--", "."], wt)
         rc2, o2 = sh(["go", "test", "-vet=off", "-count=1"] + tags + ["./" + pkg + "/"], wt)
-        sh(["git", "stash", "pop", "-q"], wt)
+        pr = subprocess.run(["git", "-C", wt, "apply"], input=diff, text=True, stdout=subprocess.PIPE, stderr=subprocess.STDOUT)
+        if pr.returncode != 0:
+            print("could not re-apply the patch:", pr.stdout); sys.exit(3)
         os.remove(dst)
         demo_res[d] = dict(package=pkg, fails_with_patch=rc1 != 0, passes_without_patch=rc2 == 0, tags=tags)
         if rc2 != 0:
@@ -61,7 +66,10 @@ try:
     ok = meta["builds"] and meta["existing_suite_passes_with_patch"] and demo_res and all(
         v["fails_with_patch"] and v["passes_without_patch"] for v in demo_res.values())
     meta["confirmed"] = bool(ok)
-    # my check
+    # my check (on the patched tree: verify that the patch is in place)
+    now = subprocess.run(["git", "-C", wt, "diff"], stdout=subprocess.PIPE, text=True).stdout
+    if now != diff:
+        print("worktree does not hold exactly the patch before the check run"); sys.exit(3)
     cmd = [sys.executable, "/verif/run.py", cid, "--tier", "quick"] + (["--runs", runs] if runs else [])
     e2 = dict(os.environ, VERIF_REPO=wt, VERIF_SEED="1")
     t0 = time.time()
